@@ -8,6 +8,26 @@ _NOTE = ('trusted base: the simulator itself (SimLoop, SimKernel, fake ZeroMQ) '
 _TECH = 'deterministic simulation with fault injection'
 
 META = {
+    'C08': {
+        'level': 'exploration',
+        'text': 'the real circusd.main() runs inside the simulator on '
+                'generated ini files (watchers with stubborn / slow workers, '
+                'real inet and unix managed sockets, a real pid file with '
+                'seeded pre-existing content); requests, worker deaths, '
+                'SIGHUP, daemon restarts and finally quit or SIGTERM / SIGINT '
+                '/ SIGQUIT are armed beforehand and delivered by the '
+                'scheduler at seeded times, loop steps and kernel-call '
+                'boundaries, with requests and deaths racing the shutdown; '
+                'judged: exit status 0 within a configuration-derived bound, '
+                'no live child in the kernel, fake zmq sockets and managed '
+                'sockets closed, unix paths and pid file gone, signal '
+                'handlers restored; start-up half: live foreign pid refuses, '
+                'every other pid-file content is taken over',
+        'note': _NOTE + '; the window in which the old signal handlers are '
+                'restored during a daemon restart cannot be simulated (the '
+                'default action would kill the process)',
+        'technique': _TECH + ' (circusd.main under the seeded scheduler, '
+                     'signal delivery at step / kernel-call boundaries)'},
     'C17': {
         'level': 'exploration',
         'text': 'watchers with collecting stdout/stderr streams and 1-4 '
